@@ -138,6 +138,26 @@ T = {
     "C17-m3-two-over-pi-working-precision-1064": ("get_two_over_pi_multiword: float64 working precision 1074 -> 1064", "float64, |x| above 2^1003, moderately small remainder (near-multiples of pi/2)", True, ""),
     "C17-m4-two-over-pi-max-length-49": ("argument_reduction_trigonometric_impl caps the float64 2/pi multiword at 49 words", "float64, top three binades, x within 1e-4 of a multiple of pi/2", True, ""),
     "C17-m5-mul-mw-mod4-drops-last-antidiagonals": ("mul_mw_mod4 loop bound drops the last two anti-diagonals", "float64, top binades, x within 1e-5 of a multiple of pi/2 with large low mantissa bits", True, ""),
+    # ---- fifth wave (time-boxed to one hour per agent)
+    "C01-m6-sum-2sum-low-word-overwritten": ("algorithms.sum_2sum overwrites the low word instead of accumulating it", "complex log1p on the left arc of |1+z| = 1", True, ""),
+    "C01-m7-log1p-case-c-selector-without-ay": ("complex_log1p Case C selector `axp1 + ay < 0.2` -> `axp1 < 0.2`", "|x+1| < 0.2 with |y| near sqrt(1-(x+1)^2)", True, ""),
+    "C01-m8-complex-log-low-word-yyl-twice": ("complex_log sums the low word of y^2 twice (x^2's dropped)", "|z| within about 1.5% of 1", True, ""),
+    "C02-m6-hypot-ratio-guard-smallest": ("hypot divides by max(mx, smallest)", "both arguments subnormal and unequal", True, ""),
+    "C02-m7-acosh-near-one-shortcut": ("real_acosh near-one shortcut sqrt(2(x-1)) guarded by sqrt(eps)", "x in (1+40 eps, 1+sqrt(eps))", True, ""),
+    "C02-m8-acos-atan-select-negzero": ("real_acos rewritten with atan + select(x < 0)", "x = -0.0", True, ""),
+    "C10-m6-utils-add-fast2sum-opposite-precondition": ("utils.add_fast2sum computes the error term for the opposite precondition", "|x| >= |y| with low bits of y absorbed", True, ""),
+    "C10-m7-algorithms-add-2sum-parentheses-dropped": ("algorithms.add_2sum: (x - (s - z)) -> (x - s + z)", "fast=False, |x| < |y|", True, ""),
+    "C10-m8-utils-add-2sum-mixed-formulation": ("utils.add_2sum mixes Knuth's and the z formulation", "rounding error of s at least half an ULP of x", True, ""),
+    "C11-m6-renormalize-vecsum-without-fix-overflow": ("renormalize's first VecSum call loses fix_overflow", "apmath fma with x*y = +-largest and z = -+1.5 ulp(largest): nan", False, "C11 directed overflow-edge points (product or addend at / next to +-largest, the other a small multiple of half an ULP of largest) for every variant and dtype"),
+    "C11-m7-fma-a8-two-sum-without-fix-overflow": ("fma_real a8 branch: two_sum without fix_overflow", "algorithm a8, z = +-largest, x*y = -+1.5 ulp(largest)", True, ""),
+    "C11-m8-fma-a9-guard-sl-instead-of-z": ("apmath.fma a9: possibly_zero_z guard tests sl == 0", "algorithm a9, possibly_zero_z, z ~ -x*y with an exact high sum", True, ""),
+    "C12-m6-multiply-loop-bound-from-square": ("apmath.multiply loop bound taken from square()", "len(seq2) >= len(seq1) + 2 with a non-negligible tail", False, "C12 multiply with operands of lengths 1..2 against 3..4 (both orders)"),
+    "C12-m7-square-skips-diagonal": ("apmath.square filter `i1 > i2` -> `i1 >= i2`", "overlapping inputs or leading zeros", True, ""),
+    "C13-m6-mpf2multiword-skip-zero-bits-once": ("mpf2multiword skips heading zero bits once (if) instead of repeatedly (while)", "a multi-word result whose mantissa has a run of about 2p zero bits", True, ""),
+    "C13-m7-float2bin-negative-nan-asserts": ("float2bin's NaN test excludes NaNs with the sign bit set", "a NaN with the sign bit set (inf - inf)", True, ""),
+    "C19-m6-negative-branch-positive-zero-max": ("real_samples negative-bounds branch uses max_value's own bit pattern", "min_value < 0 and max_value = +0.0", True, ""),
+    "C19-m7-complex-samples-imag-max-from-real": ("complex_samples imaginary axis takes max_real_value", "max_imag_value != max_real_value", True, ""),
+    "C19-m8-triple-samples-third-axis-include-huge": ("real_triple_samples does not forward include_huge to the third axis", "include_huge=False and a large enough third size", True, ""),
 }
 
 
